@@ -355,6 +355,12 @@ namespace detail {
             {
                 return count_inits(s.substr(endl_after_pos), occurrences + 1);
             }
+            // a terminate line ("State --> [*]"): initial lines can still follow it
+            if (star_pos != std::string::npos &&
+                endl_after_pos != std::string::npos)
+            {
+                return count_inits(s.substr(endl_after_pos), occurrences);
+            }
             return occurrences;
         };
         constexpr int count_actions(std::string_view s)
